@@ -605,11 +605,12 @@ def _compose_qoperations_MProcess_State_for_States(
             ps.append(p_x)
 
     # normalize prob dist
+    ps_before_normalization = ps
     if truncate and np.sum(ps) != 0:
         ps = ps / np.sum(ps)
 
-    # calc rho_x(vec of State) after normalization
-    for Mx_rho, p_x in zip(Mx_rhos, ps):
+    # calc rho_x(vec of State): Mx_rho divided by its own trace (p_x before normalization)
+    for Mx_rho, p_x in zip(Mx_rhos, ps_before_normalization):
         if p_x == 0:
             rho_x = np.zeros(elem2.vec.shape, dtype=elem2.vec.dtype)
             state = State(
